@@ -355,6 +355,9 @@ static void run_supervised(body_fn body, death_fn on_death, void *arg, long lo, 
             body(arg, start, hi);
             fflush(g_out);
             g_shm->done = 1;
+#ifdef VERIF_COV
+            { extern void __gcov_dump(void); __gcov_dump(); }     /* tools/coverage.py builds only */
+#endif
             _exit(0);
         }
         int status = 0, hung = 0;
